@@ -125,6 +125,44 @@ theorem print_effect (fx : Fixes) (vt : VTState) (hw : Spec.WF vt) (hpw : vt.pen
 /-- four characters from column 2 of 6: the text ends exactly at the right edge -/
 example := print_effect Fixes.none exScreen exScreen_wf rfl [0x68, 0x65, 0x79, 0x21] (by decide) (by decide) (by decide)
 
+/-- The cells a printable character occupies are as many as the library's width counter says
+    (`tickit_utf8_wcwidth`, and `tickit_utf8_count` of its encoding: C07 `put_count_roundtrip`). -/
+theorem cells_are_library_width (cp : Nat) (hp : Spec.Printable cp) (fuel : Nat) :
+    ((Spec.cellsOf cp).length : Int) = Width.wcwidth cp ∧
+    Utf8.count (Utf8.memOfBytes (Utf8.putBytes cp)) (fuel + 2) none =
+      .ret (Utf8.seqlen cp) ⟨Utf8.seqlen cp, 1, if Width.wcwidth cp > 0 then 1 else 0, Width.wcwidth cp⟩
+        (Utf8.seqlen cp + 1) := by
+  obtain ⟨p1, p2, p3⟩ := hp
+  refine ⟨?_, Utf8.count_putBytes cp p1 p2 (by omega) fuel⟩
+  have hnn : 0 ≤ Width.wcwidth cp := by
+    rcases Utf8.wcwidth_cases cp with h | h
+    · exact absurd h (Utf8.wcwidth_ne_neg_one cp (by omega) (by omega))
+    · exact h
+  rcases cellsOf_cases cp with ⟨hw, hc⟩ | ⟨hw, hc⟩ | ⟨hw, hc⟩ <;>
+    (rw [hc]; unfold width at hw; simp only [List.length_cons, List.length_nil]; omega)
+
+/-- `print` of any printable UTF-8 text — multi-byte, double-width and combining characters included — that fits
+    in the row: exactly the cells under the text change, each character taking as many cells as the library's
+    width counter gives it (glyph, glyph + continuation cell, or none for a combining character), with the current
+    attributes; the cursor advances by the sum of the widths, or stays on the last column with the wrap pending
+    when the text ends exactly at the right edge.  The text is given by its code points; the bytes are the
+    library's own encoding of them. -/
+theorem print_utf8_effect (fx : Fixes) (vt : VTState) (hw : Spec.WF vt) (hpw : vt.pendingWrap = false)
+    (cps : List Nat) (hp : ∀ cp ∈ cps, Spec.Printable cp)
+    (hfit : vt.col + (Spec.textCells cps).length ≤ vt.cols) :
+    run (print fx (Spec.utf8 cps) (Spec.utf8 cps).length) vt = Spec.placeCells (Spec.textCells cps) vt := by
+  have : print fx (Spec.utf8 cps) (Spec.utf8 cps).length = Spec.utf8 cps := by
+    unfold print
+    by_cases h : (Spec.utf8 cps).length = 0
+    · have : Spec.utf8 cps = [] := List.eq_nil_of_length_eq_zero h
+      rw [this]; simp
+    · simp [h]
+  rw [this, run_utf8 cps hp vt hw.ground, foldl_putGlyph cps vt hpw hw.col_hi hfit]
+
+/-- "é", "一" (double width), "e" + combining acute, "€": 1 + 2 + 1 + 0 + 1 = 5 cells from column 1 of 6 -/
+example := print_utf8_effect Fixes.none { exScreen with col := 1 } (by constructor <;> decide) rfl
+  [0xe9, 0x4e00, 0x65, 0x301, 0x20ac] (by decide) (by decide +kernel)
+
 /-- `printn(str, len)` sends exactly the first `len` bytes (the full clause for the byte count). -/
 def C09_print_len (fx : Fixes) : Prop :=
   ∀ (str : List UInt8) (len : Nat), len ≤ str.length → print fx str len = str.take len
@@ -488,7 +526,7 @@ theorem request_effect (fx : Fixes) (d : Drv) (vt : VTState) (hw : Spec.WF vt) (
     (hcols : d.cols = vt.cols) (hrv : vt.rv = d.pen.reverse) (q : Request) (hq : InContract fx d vt q) :
     StepOK fx d vt (run (request fx d q).2 vt) q ∧ Spec.WF (run (request fx d q).2 vt) ∧
     Spec.CapsOK d.caps (run (request fx d q).2 vt) ∧ d.cols = (run (request fx d q).2 vt).cols ∧
-    (run (request fx d q).2 vt).rv = d.pen.reverse := by
+    (run (request fx d q).2 vt).rv = d.pen.reverse ∧ (run (request fx d q).2 vt).bg = vt.bg := by
   have hw' := hw
   obtain ⟨g, r1, r2, c1, c2, m1, m2, m3, m4⟩ := hw'
   cases q with
@@ -496,37 +534,45 @@ theorem request_effect (fx : Fixes) (d : Drv) (vt : VTState) (hw : Spec.WF vt) (
     obtain ⟨hl, hc⟩ := hq
     simp only [request, StepOK]
     rw [goto_effect vt hw line col hl hc]
-    refine ⟨rfl, ?_, ?_, ?_, ?_⟩
+    refine ⟨rfl, ?_, ?_, ?_, ?_, ?_⟩
     · unfold Spec.goto; split
       · exact hw
       · constructor <;> simp only [] <;> first | assumption | (split <;> omega)
     · unfold Spec.goto; split <;> exact hcaps
     · unfold Spec.goto; split <;> exact hcols
     · unfold Spec.goto; split <;> exact hrv
+    · unfold Spec.goto; split <;> rfl
   | move dn rt =>
     obtain ⟨hr, hc⟩ := hq
     simp only [request, StepOK]
     rw [move_effect vt hw dn rt hr hc]
-    refine ⟨rfl, ?_, ?_, ?_, ?_⟩
+    refine ⟨rfl, ?_, ?_, ?_, ?_, ?_⟩
     · unfold Spec.move; split
       · exact hw
       · constructor <;> simp only [] <;> first | assumption | omega
     · unfold Spec.move; split <;> exact hcaps
     · unfold Spec.move; split <;> exact hcols
     · unfold Spec.move; split <;> exact hrv
+    · unfold Spec.move; split <;> rfl
   | print s n =>
-    obtain ⟨hpw, hn, hne, hascii, hfit⟩ := hq
+    obtain ⟨hpw, hn, cps, hs, hp, hfit⟩ := hq
     subst hn
     simp only [request, StepOK]
-    rw [print_effect fx vt hw hpw s hascii hne hfit]
-    refine ⟨rfl, ?_, hcaps, hcols, hrv⟩
-    constructor <;> simp only [] <;> first | assumption | (split <;> omega)
+    refine ⟨?_, ?_, ?_, ?_, ?_, ?_⟩
+    · intro cps' hs' hp' hfit'
+      rw [hs', print_utf8_effect fx vt hw hpw cps' hp' hfit']
+    all_goals rw [hs, print_utf8_effect fx vt hw hpw cps hp hfit]
+    · constructor <;> simp only [Spec.placeCells] <;> first | assumption | (split <;> omega)
+    · exact hcaps
+    · exact hcols
+    · exact hrv
+    · rfl
   | erasech n me =>
     obtain ⟨hpw, h1, hfit, h64, hlast⟩ := hq
     simp only [request, StepOK]
     have he := erasech_effect fx vt hw hpw d.pen.reverse hrv n me h1 hfit h64 hlast
     obtain ⟨⟨e1, e2, e3, e4, e5, e6, e7, e8, e9, e10⟩, _, erow, _, _, ecol⟩ := he
-    refine ⟨erasech_effect fx vt hw hpw d.pen.reverse hrv n me h1 hfit h64 hlast, ?_, ?_, ?_, ?_⟩
+    refine ⟨erasech_effect fx vt hw hpw d.pen.reverse hrv n me h1 hfit h64 hlast, ?_, ?_, ?_, ?_, e8⟩
     · exact ⟨e10.trans g, by omega, by omega, by omega, by omega, by omega, by omega, by omega, by omega⟩
     · intro h; rw [e7]; exact hcaps h
     · rw [e2]; exact hcols
@@ -534,7 +580,7 @@ theorem request_effect (fx : Fixes) (d : Drv) (vt : VTState) (hw : Spec.WF vt) (
   | clear =>
     simp only [request, StepOK]
     rw [clear_effect vt hw]
-    exact ⟨rfl, ⟨g, r1, r2, c1, c2, m1, m2, m3, m4⟩, hcaps, hcols, hrv⟩
+    exact ⟨rfl, ⟨g, r1, r2, c1, c2, m1, m2, m3, m4⟩, hcaps, hcols, hrv, rfl⟩
   | scroll r dn rt =>
     obtain ⟨hin, hone⟩ := hq
     simp only [request, StepOK]
@@ -543,12 +589,12 @@ theorem request_effect (fx : Fixes) (d : Drv) (vt : VTState) (hw : Spec.WF vt) (
     | false =>
       rw [scroll_failure_silent fx d.caps vt.cols r dn rt hret, run_nil]
       simp only [Bool.false_eq_true, if_false]
-      exact ⟨trivial, hw, hcaps, trivial, hrv⟩
+      exact ⟨trivial, hw, hcaps, trivial, hrv, trivial⟩
     | true =>
       have hs := scroll_success_effect fx vt hw d.caps hcaps r dn rt hin hone hret
       obtain ⟨⟨e1, e2, e3, e4, e5, e6, e7, e8, e9, e10⟩, _, s1, s2, s3, s4⟩ := hs
       simp only [if_true]
-      refine ⟨scroll_success_effect fx vt hw d.caps hcaps r dn rt hin hone hret, ?_, ?_, ?_, ?_⟩
+      refine ⟨scroll_success_effect fx vt hw d.caps hcaps r dn rt hin hone hret, ?_, ?_, ?_, ?_, e8⟩
       · exact ⟨e10.trans g, by omega, by omega, by omega, by omega, by omega, by omega, by omega, by omega⟩
       · intro h; rw [e7]; exact hcaps h
       · exact e2.symm
@@ -566,16 +612,176 @@ theorem sequence_effect (fx : Fixes) (d : Drv) (qs : List Request) (vt : VTState
   | nil => exact ⟨trivial, hw⟩
   | cons q rest ih =>
     obtain ⟨hq1, hq2⟩ := hq
-    obtain ⟨a, b, c, e, f⟩ := request_effect fx d vt hw hcaps hcols hrv q hq1
+    obtain ⟨a, b, c, e, f, _⟩ := request_effect fx d vt hw hcaps hcols hrv q hq1
     have := ih _ b c e f hq2
     exact ⟨⟨a, this.1⟩, this.2⟩
 
 /-- a goto, a print up to the right edge, a column-only goto back and a reverse-video erase, on `exScreen` -/
 example : AllInContract Fixes.none ⟨⟨true, false, false⟩, 4, 6, ⟨true, some 3, some true⟩⟩ exScreen
     [.goto 2 3, .print [0x61, 0x62, 0x63] 3, .goto (-1) 1, .erasech 4 .no] :=
-  ⟨⟨by decide, by decide⟩, ⟨by decide +kernel, rfl, by decide, by decide, by decide +kernel⟩,
+  ⟨⟨by decide, by decide⟩, ⟨by decide +kernel, rfl, [0x61, 0x62, 0x63], by decide, by decide, by decide +kernel⟩,
    ⟨by decide, by decide +kernel⟩,
    ⟨by decide +kernel, by decide, by decide +kernel, by decide, by decide +kernel⟩, trivial⟩
+
+/-! ### Pen changes: the SGR bytes keep the terminal's reverse video and background equal to the cached pen -/
+
+theorem with_bg_rv_self (vt : VTState) : { vt with bg := vt.bg, rv := vt.rv } = vt := by cases vt; rfl
+
+/-- `setpen` (pens carrying a background index and/or reverse video): the emitted SGR bytes change nothing but the
+    rendering attributes, and afterwards the terminal's reverse video and background are the cached pen's — this
+    is what `erasech_effect` assumes as `hrv`. -/
+theorem setpen_effect (caps : Caps) (cache : PenCache) (pen : PenReq) (vt : VTState) (hw : Spec.WF vt)
+    (hinv : Spec.PenInv cache vt) (hok : Spec.PenOK pen) :
+    ∃ bg' rv', run (setpen caps cache pen).2 vt = { vt with bg := bg', rv := rv' } ∧
+      Spec.PenInv (setpen caps cache pen).1 { vt with bg := bg', rv := rv' } := by
+  obtain ⟨hrv, hbg⟩ := hinv
+  have hr : -1 ≤ pen.bg.getD (-1) ∧ pen.bg.getD (-1) ≤ 255 := by
+    cases hb : pen.bg with
+    | none => simp
+    | some v => simpa using hok v hb
+  simp only [setpen]
+  generalize pen.bg.getD (-1) = bgv at hr ⊢
+  generalize pen.rv.getD false = rvv
+  rw [run_chpenBytes vt hw.ground caps.colon _ _ _ _ _ hr.1 hr.2]
+  have hcbF : decide (cache.bg ≠ some bgv) = false → cache.bg = some bgv := by intro h; simpa using h
+  have hcrF : decide (cache.rv ≠ some rvv) = false → cache.rv = some rvv := by intro h; simpa using h
+  generalize decide (cache.bg ≠ some bgv) = cb at hcbF ⊢
+  generalize decide (cache.rv ≠ some rvv) = cr at hcrF ⊢
+  generalize (!cache.others) = o
+  have inv_same : cb = false → cr = false → Spec.PenInv ⟨true, some bgv, some rvv⟩ vt := by
+    intro h1 h2
+    have hcb := hcbF h1; have hcr := hcrF h2
+    exact ⟨by rw [hrv]; simp [PenCache.reverse, hcr], fun v hv => by
+      simp only [Option.some.injEq] at hv; rw [← hv]; exact hbg _ hcb⟩
+  by_cases hnil : o = false ∧ cb = false ∧ cr = false
+  · rw [if_pos hnil]
+    refine ⟨vt.bg, vt.rv, (with_bg_rv_self vt).symm, ?_⟩
+    rw [with_bg_rv_self vt]
+    exact inv_same hnil.2.1 hnil.2.2
+  · rw [if_neg hnil]
+    cases hnd : (PenCache.mk true (some bgv) (some rvv)).nondefault
+    · rw [if_pos rfl]
+      obtain ⟨n1, n2⟩ := nondefault_false _ _ _ hnd
+      exact ⟨-1, false, rfl, by simpa [PenCache.reverse] using n2.symm, fun v hv => by
+        simp only [Option.some.injEq] at hv; rw [← hv]; exact (n1 _ rfl).symm⟩
+    · rw [if_neg (by simp)]
+      refine ⟨_, _, rfl, ?_, ?_⟩
+      · simp only [PenCache.reverse, Option.getD_some]
+        cases cr with
+        | true => rfl
+        | false =>
+          simp only [Bool.false_eq_true, if_false]
+          rw [hrv]; simp [PenCache.reverse, hcrF rfl]
+      · intro v hv
+        simp only [Option.some.injEq] at hv
+        simp only []
+        cases cb with
+        | true => simpa using hv
+        | false =>
+          simp only [Bool.false_eq_true, if_false]
+          rw [← hv]; exact hbg _ (hcbF rfl)
+
+/-- `chpen`: likewise; attributes the pen does not mention keep their cached values. -/
+theorem chpen_effect (caps : Caps) (cache : PenCache) (pen : PenReq) (vt : VTState) (hw : Spec.WF vt)
+    (hinv : Spec.PenInv cache vt) (hok : Spec.PenOK pen) :
+    ∃ bg' rv', run (chpen caps cache pen).2 vt = { vt with bg := bg', rv := rv' } ∧
+      Spec.PenInv (chpen caps cache pen).1 { vt with bg := bg', rv := rv' } := by
+  obtain ⟨hrv, hbg⟩ := hinv
+  have hr : -1 ≤ pen.bg.getD (-1) ∧ pen.bg.getD (-1) ≤ 255 := by
+    cases hb : pen.bg with
+    | none => simp
+    | some v => simpa using hok v hb
+  simp only [chpen]
+  have hcb1 : changedBy cache.bg pen.bg = true → pen.bg = some (pen.bg.getD (-1)) := by
+    cases hb : pen.bg with
+    | none => simp [changedBy]
+    | some v => simp
+  have hcr1 : changedBy cache.rv pen.rv = true → pen.rv = some (pen.rv.getD false) := by
+    cases hb : pen.rv with
+    | none => simp [changedBy]
+    | some v => simp
+  generalize changedBy cache.bg pen.bg = cb at hcb1 ⊢
+  generalize changedBy cache.rv pen.rv = cr at hcr1 ⊢
+  generalize pen.bg.getD (-1) = bgv at hr hcb1 ⊢
+  generalize pen.rv.getD false = rvv at hcr1 ⊢
+  rw [run_chpenBytes vt hw.ground caps.colon false cb cr bgv rvv hr.1 hr.2]
+  by_cases hnil : false = false ∧ cb = false ∧ cr = false
+  · rw [if_pos hnil]
+    obtain ⟨_, h2, h3⟩ := hnil
+    subst h2; subst h3
+    refine ⟨vt.bg, vt.rv, (with_bg_rv_self vt).symm, ?_⟩
+    rw [with_bg_rv_self vt]
+    simp only [Bool.false_eq_true, if_false]
+    exact ⟨hrv, hbg⟩
+  · rw [if_neg hnil]
+    cases hnd : (PenCache.mk cache.others (if cb = true then pen.bg else cache.bg)
+        (if cr = true then pen.rv else cache.rv)).nondefault
+    · rw [if_pos rfl]
+      obtain ⟨n1, n2⟩ := nondefault_false _ _ _ hnd
+      exact ⟨-1, false, rfl, by simpa [PenCache.reverse] using n2.symm, fun v hv => (n1 v hv).symm⟩
+    · rw [if_neg (by simp)]
+      refine ⟨_, _, rfl, ?_, ?_⟩
+      · simp only [PenCache.reverse]
+        cases cr with
+        | false => simp only [Bool.false_eq_true, if_false]; exact hrv
+        | true => simp only [if_true]; rw [hcr1 rfl]; rfl
+      · intro v hv
+        simp only [] at hv ⊢
+        cases cb with
+        | false => simp only [Bool.false_eq_true, if_false] at hv ⊢; exact hbg v hv
+        | true =>
+          simp only [if_true] at hv ⊢
+          rw [hcb1 rfl] at hv
+          simpa using hv
+
+/-! ### Histories of requests and pen changes -/
+
+/-- THE PROPERTY for whole histories, with the pen assumption discharged: starting from a well-formed screen whose
+    reverse video and background agree with the driver's cached pen (as after start-up: `CSI m`, empty cache), every
+    drawing request of a history of requests and pen changes, each in range at its turn, has exactly the requested
+    effect; pen changes touch nothing but the rendering attributes; the screen stays well formed and the pen
+    agreement is maintained — so the erase strategy is always chosen for the terminal's actual reverse state. -/
+theorem ops_effect (fx : Fixes) (ops : List Op) (d : Drv) (vt : VTState) (hw : Spec.WF vt)
+    (hcaps : Spec.CapsOK d.caps vt) (hcols : d.cols = vt.cols) (hpen : Spec.PenInv d.pen vt)
+    (hc : AllOpsInContract fx (d, vt) ops) :
+    AllOpsOK fx (d, vt) ops ∧ Spec.WF (runOps fx (d, vt) ops).2 ∧
+    Spec.PenInv (runOps fx (d, vt) ops).1.pen (runOps fx (d, vt) ops).2 := by
+  induction ops generalizing d vt with
+  | nil => exact ⟨trivial, hw, hpen⟩
+  | cons o rest ih =>
+    obtain ⟨hc1, hc2⟩ := hc
+    cases o with
+    | req q =>
+      obtain ⟨a, b, c, e, f, gbg⟩ := request_effect fx d vt hw hcaps hcols hpen.1 q hc1
+      have hp' : Spec.PenInv d.pen (run (request fx d q).2 vt) :=
+        ⟨f, fun v hv => by rw [gbg]; exact hpen.2 v hv⟩
+      have := ih d _ b c e hp' hc2
+      exact ⟨⟨a, this.1⟩, this.2⟩
+    | setpen p =>
+      obtain ⟨bg', rv', hrun, hinv'⟩ := setpen_effect d.caps d.pen p vt hw hpen hc1
+      have hwf : Spec.WF (run (setpen d.caps d.pen p).2 vt) := by
+        rw [hrun]; obtain ⟨g, r1, r2, c1, c2, m1, m2, m3, m4⟩ := hw; exact ⟨g, r1, r2, c1, c2, m1, m2, m3, m4⟩
+      have := ih { d with pen := (setpen d.caps d.pen p).1 } (run (setpen d.caps d.pen p).2 vt) hwf
+        (by rw [hrun]; exact hcaps) (by rw [hrun]; exact hcols) (by rw [hrun]; exact hinv') hc2
+      refine ⟨⟨?_, this.1⟩, this.2⟩
+      have e : (stepOp fx (d, vt) (Op.setpen p)).2 = run (setpen d.caps d.pen p).2 vt := rfl
+      show (stepOp fx (d, vt) (Op.setpen p)).2 =
+        { vt with bg := (stepOp fx (d, vt) (Op.setpen p)).2.bg, rv := (stepOp fx (d, vt) (Op.setpen p)).2.rv }
+      rw [e, hrun]
+    | chpen p =>
+      obtain ⟨bg', rv', hrun, hinv'⟩ := chpen_effect d.caps d.pen p vt hw hpen hc1
+      have hwf : Spec.WF (run (chpen d.caps d.pen p).2 vt) := by
+        rw [hrun]; obtain ⟨g, r1, r2, c1, c2, m1, m2, m3, m4⟩ := hw; exact ⟨g, r1, r2, c1, c2, m1, m2, m3, m4⟩
+      have := ih { d with pen := (chpen d.caps d.pen p).1 } (run (chpen d.caps d.pen p).2 vt) hwf
+        (by rw [hrun]; exact hcaps) (by rw [hrun]; exact hcols) (by rw [hrun]; exact hinv') hc2
+      refine ⟨⟨?_, this.1⟩, this.2⟩
+      have e : (stepOp fx (d, vt) (Op.chpen p)).2 = run (chpen d.caps d.pen p).2 vt := rfl
+      show (stepOp fx (d, vt) (Op.chpen p)).2 =
+        { vt with bg := (stepOp fx (d, vt) (Op.chpen p)).2.bg, rv := (stepOp fx (d, vt) (Op.chpen p)).2.rv }
+      rw [e, hrun]
+
+/-- after start-up: `CSI m` has been sent and the cache is empty -/
+example : Spec.PenInv PenCache.empty (cexScreen 4 6) := ⟨rfl, fun _ h => by cases h⟩
 
 /-! ### The full clauses, and the defects that refute them on the unchanged tree -/
 
